@@ -58,7 +58,7 @@ static int g_state = 0; /* 0 = not initialised, 1 = active, 2 = passthrough, 3 =
 static char *g_root = NULL; static size_t g_rootlen = 0;
 static unsigned long g_dev = 0;
 static Node *g_nodes = NULL; static int g_nnodes = 0, g_capnodes = 0;
-static Fail g_fails[256]; static int g_nfails = 0;
+static Fail g_fails[4096]; static int g_nfails = 0;
 static Mut g_muts[64]; static int g_nmuts = 0;
 static Ident g_users[64], g_groups[64]; static int g_nusers = 0, g_ngroups = 0; static int g_ident = 0;
 static long *g_out_sched = NULL; static int g_nout = 0, g_out_cycle = 0, g_out_i = 0;
@@ -67,6 +67,7 @@ static int g_clock = 0; static long long g_clock_ns = 0, g_clock_tick = 0, g_clo
 static int g_entropy = 0; static uint64_t g_entropy_seed = 0, g_entropy_ctr = 0;
 static long g_budget = 0; static long g_seq = 0;
 static int g_fifo_block = 1;
+static int g_tty = 0; /* plan `tty 1`: the consumer of stdout is a terminal */
 static int g_logfd = -1;
 static int g_sorted = 0;
 
@@ -261,7 +262,7 @@ static void parse_plan(char *text) {
                             else die("plan: stat field");
                         }
                     } else if (!strcmp(kw, "fail")) {
-                        if (g_nfails >= 256) die("plan: too many fails");
+                        if (g_nfails >= 4096) die("plan: too many fails");
                         Fail *f = &g_fails[g_nfails++]; memset(f, 0, sizeof *f);
                         f->call = call_id(next_tok(&p)); f->ino = strtoul(next_tok(&p), NULL, 10);
                         f->err = atoi(next_tok(&p)); char *t = next_tok(&p); f->arg = t ? atol(t) : 0;
@@ -289,6 +290,7 @@ static void parse_plan(char *text) {
                     } else if (!strcmp(kw, "group")) { if (g_ngroups >= 64) die("plan: groups"); g_groups[g_ngroups].id = strtoul(next_tok(&p), NULL, 10); g_groups[g_ngroups++].name = dec(next_tok(&p)); g_ident = 1;
                     } else if (!strcmp(kw, "budget")) { g_budget = atol(next_tok(&p));
                     } else if (!strcmp(kw, "fifo_block")) { g_fifo_block = atoi(next_tok(&p));
+                    } else if (!strcmp(kw, "tty")) { g_tty = atoi(next_tok(&p));
                     } else die("plan: unknown keyword");
                 }
             }
@@ -906,4 +908,13 @@ int getgrgid_r(gid_t gid, struct group *gr, char *buf, size_t buflen, struct gro
     }
     logline("getgrgid %u -> none", (unsigned)gid);
     *res = NULL; return 0;
+}
+
+/* ---------------------------------------------------------------- terminal */
+int isatty(int fd) {
+    ENSURE();
+    if (g_state == 1 && g_tty && fd == 1) { step(); logline("isatty fd1 -> 1 (simulated terminal)"); return 1; }
+    static int (*real_isatty)(int) = NULL;
+    if (!real_isatty) real_isatty = dlsym(RTLD_NEXT, "isatty");
+    return real_isatty(fd);
 }
